@@ -1,2 +1,25 @@
-(* C12 (theorems added as proved). *)
-From VF Require Import Base.Prelude.
+(* C12 — A published message depends only on its own datagram.
+   Over ALL schedules (every reachable state of the interleaving semantics of receive loop, any number
+   of workers, pool and queues) and for any per-datagram processing function (each protocol's
+   sequential decode + encode): every message in the producer queue is exactly what processing ONE
+   received datagram — the one the message was dequeued for — produces, in some cache state. *)
+From VF Require Import Base.Prelude Model.Pipeline Proofs.PipelineProofs.
+
+Theorem C12_published_is_own : forall (C P : Type) (process : C -> nat -> C * option P * bool) n c s,
+  reachable C P process (init C P n c) s ->
+  forall i p, In (i, p) (mq s) -> (i < recvd s)%nat /\ exists c', snd (fst (process c' i)) = Some p.
+Proof.
+  intros C P process n c s Hr i p Hin.
+  destruct (reachable_inv C P process n c s Hr) as [_ (_ & _ & Hlt & _ & Hincl & _ & Hpub)].
+  split; [|eapply Hpub; exact Hin].
+  apply Hlt. unfold live. apply in_or_app; right; apply in_or_app; right. apply Hincl.
+  apply in_map_iff. exists (i, p). split; [reflexivity|exact Hin].
+Qed.
+Print Assumptions C12_published_is_own.
+
+(* the mechanism: receive buffers are owned by exactly one party at a time, and a buffer queued for or
+   held by a worker still holds the datagram it was filled with *)
+Theorem C12_buffer_ownership : forall (C P : Type) (process : C -> nat -> C * option P * bool) n c s,
+  reachable C P process (init C P n c) s -> Own C P s.
+Proof. intros C P process n c s Hr. exact (proj1 (reachable_inv C P process n c s Hr)). Qed.
+Print Assumptions C12_buffer_ownership.
